@@ -832,7 +832,106 @@ func checkOwnNames(c *core.Ctx, prog *core.Prog, r *core.Rule) {
 		return
 	}
 	n := 0
-	for _, f := range core.AllFuncs(ws) {
+	// WriteSource, its closures and the helpers of package gen they call (the name may be built in a helper)
+	var scope []*ssa.Function
+	{
+		seenF := map[*ssa.Function]bool{}
+		var add func(f *ssa.Function, d int)
+		add = func(f *ssa.Function, d int) {
+			if seenF[f] || d > 2 {
+				return
+			}
+			seenF[f] = true
+			for _, g := range core.AllFuncs(f) {
+				if g != f {
+					seenF[g] = true
+				}
+				scope = append(scope, g)
+				for _, call := range core.Calls(g) {
+					if cal := call.Common().StaticCallee(); cal != nil && core.FuncPkgPath(cal) == pkgGen && len(cal.Blocks) > 0 && !seenF[cal] {
+						add(cal, d+1)
+					}
+				}
+			}
+		}
+		add(ws, 0)
+	}
+	// names built by concatenation: "oas_" + name + "_gen.go"
+	for _, f := range scope {
+		for _, b := range f.Blocks {
+			for _, in := range b.Instrs {
+				bo, ok := in.(*ssa.BinOp)
+				if !ok || bo.Op != token.ADD {
+					continue
+				}
+				// the right end: a constant, or a variable that is one of several constants ("_gen.go" / "_gen_test.go")
+				var posts []string
+				allConst := true
+				for _, leaf := range core.PhiClosure(bo.Y) {
+					cs, ok := core.ConstString(leaf)
+					if !ok {
+						allConst = false
+						break
+					}
+					posts = append(posts, cs)
+				}
+				if !allConst || len(posts) == 0 {
+					continue
+				}
+				goName := true
+				for _, ps := range posts {
+					if !strings.HasSuffix(ps, ".go") {
+						goName = false
+					}
+				}
+				if !goName {
+					continue
+				}
+				sort.Strings(posts)
+				post := posts[0]
+				for _, ps := range posts[1:] {
+					// every alternative has to satisfy the predicate: check the others here, the first below
+					okAlt := false
+					for sfx := range approvedSuffix {
+						if strings.HasSuffix(ps, sfx) {
+							okAlt = true
+						}
+					}
+					if !okAlt {
+						post = ps
+					}
+				}
+				// leftmost constant of the chain
+				left := bo.X
+				for {
+					l, ok := left.(*ssa.BinOp)
+					if !ok || l.Op != token.ADD {
+						break
+					}
+					left = l.X
+				}
+				pre, _ := core.ConstString(left)
+				n++
+				okP, okS := false, false
+				for p := range approvedPrefix {
+					if strings.HasPrefix(pre, p) {
+						okP = true
+					}
+				}
+				for sfx := range approvedSuffix {
+					if strings.HasSuffix(post, sfx) {
+						okS = true
+					}
+				}
+				if okP && okS {
+					r.Pass(fmt.Sprintf("file name %q + … + %q satisfies the clean predicate", pre, post))
+				} else {
+					r.Fail("WriteSource:format:"+pre+"…"+post, c.Pos(bo.Pos()), fmt.Sprintf("generated file name %q + … + %q does not satisfy the --clean predicate (stale files of a previous generation would survive cleaning)", pre, post))
+				}
+			}
+		}
+	}
+	for _, f := range scope {
 		for _, call := range core.Calls(f) {
 			if !core.IsCallTo(call.Common(), "fmt", "Sprintf") {
 				continue
